@@ -1,9 +1,14 @@
 #!/bin/bash
 # eval_seeded.sh <tier> <dir>...   each dir holds patch.diff + meta.json (property in meta.json); prints one verdict line per dir
 tier=${1:-quick}; shift
+here=$(dirname "${BASH_SOURCE[0]}")
+export KEEP_TRY_REPO=1
 for d in "$@"; do
 	id=$(python3 -c "import json;print(json.load(open('$d/meta.json'))['property'])")
 	printf "%s " "$d"
-	bash "$(dirname "${BASH_SOURCE[0]}")/try_seeded.sh" "$d/patch.diff" "$tier" "$id" | tr '\n' ' '
+	bash "$here/try_seeded.sh" "$d/patch.diff" "$tier" "$id" | tr '\n' ' '
 	echo
 done
+git -C /repo worktree remove --force "${TRY_REPO:-/tmp/jsim-try-repo}" 2>/dev/null
+# the checks must rebuild from /repo again next time
+true
